@@ -1,7 +1,9 @@
 (* C15 — MATCH_RECOGNIZE: one case line (see harness/c15.go for the format) -> verdict.
    Per partition the implementation's reported matches are judged by the extracted checker
    chk_C15 (run / valid / longest / skip / number / omitted) and compared with the extracted
-   reference matcher ref_part. *)
+   reference matcher ref_part. Family S (sparse rows): the same, on rows that lack column c (class
+   code 5) or column v (v = n); with bare = 1 the bare-column MEASURES of every record are compared
+   with the extracted bare_obs of the match's rows. *)
 open Model
 open Util
 open Win
@@ -33,7 +35,9 @@ let rec pdefs = function
 let rec prows id = function
   | [] -> []
   | p :: cl :: v :: ts :: r ->
-      (n_of_int (int_of_string p), { r_id = z_of_int id; r_cls = n_of_int (int_of_string cl); r_v = zs v; r_ts = zs ts })
+      (* class code 5 = column c absent / NULL; v = n: column v absent / NULL *)
+      (n_of_int (int_of_string p), { r_id = z_of_int id; r_cls = n_of_int (int_of_string cl);
+                                     r_v = (if v = "n" then z_of_int 0 else zs v); r_ts = zs ts; r_vnull = (v = "n") })
       :: prows (id + 1) r
   | _ -> failwith "bad rows"
 
@@ -181,9 +185,20 @@ let handle_k (toks : string list) : string =
        | _ -> "bad line")
   | _ -> "bad line"
 
-let handle (toks : string list) : string =
+(* family S with bare = 1: records "part mn f l n bc bv"; the bare measures are split off *)
+let rec split_bare = function
+  | [] -> ([], [])
+  | p :: mn :: f :: l :: n :: bc :: bv :: r ->
+      let (o, b) = split_bare r in (p :: mn :: f :: l :: n :: o, (int_of_string p, int_of_string f, int_of_string n, bc, bv) :: b)
+  | _ -> failwith "bad outs"
+
+let show_bare = function
+  | None -> "none"
+  | Some (c, v) -> Printf.sprintf "(c=%s v=%s)" (let c = int_of_n c in if c >= 5 then "NULL" else String.make 1 "abcde".[c])
+                     (match v with None -> "NULL" | Some z -> string_of_int (int_of_z z))
+
+let handle_plain (bare : bool) (toks : string list) : string =
   match toks with
-  | "K" :: rest -> handle_k rest
   | skip :: skipvar :: within :: rest ->
       (match split_hash rest with
        | [ []; pt; ds; rs; os ] ->
@@ -195,6 +210,7 @@ let handle (toks : string list) : string =
            let defs = (match ds with _ :: r -> pdefs r | [] -> failwith "bad defs") in
            let c = { c_pat = desugar sp; c_defs = defs; c_skip = sk; c_within = zs within } in
            let s = prows 1 rs in
+           let (os, bares) = if bare then split_bare os else (os, []) in
            let outs = pouts os in
            let parts = List.sort_uniq compare (List.map (fun (p, _) -> int_of_n p) s) in
            let verdict = ref "" and nt = ref false in
@@ -206,11 +222,36 @@ let handle (toks : string list) : string =
                  (match chk_C15 c rows impl with
                   | Some cl -> verdict := Printf.sprintf "chk %s part=%d impl=%s ref=%s" (string_of_cep_clause cl) p (show_obs impl) (show_obs model)
                   | None -> if model <> impl then verdict := Printf.sprintf "diff part=%d impl=%s ref=%s" p (show_obs impl) (show_obs model));
+                 (* MEASURES c AS bc, v AS bv: the bare columns of the LAST row of the match (NULL where it lacks them) *)
+                 if !verdict = "" then
+                   List.iter (fun (q, f, n, bc, bv) ->
+                       if q = p && !verdict = "" then begin
+                         let arr = Array.of_list rows in
+                         let a = ref (-1) in
+                         Array.iteri (fun i x -> if int_of_z x.r_id = f then a := i) arr;
+                         let want = if !a < 0 || n < 1 || !a + n > Array.length arr then None
+                           else bare_obs (Array.to_list (Array.sub arr !a n)) in
+                         let got = (match int_of_string_opt bc with
+                             | Some k -> (match bv with
+                                 | "n" -> Some (n_of_int k, None)
+                                 | _ -> (match int_of_string_opt bv with Some z -> Some (n_of_int k, Some (z_of_int z)) | None -> None))
+                             | None -> None) in
+                         if got = None || got <> want then
+                           verdict := Printf.sprintf "chk measure part=%d match ids %d.. (%d rows): MEASURES c AS bc, v AS bv = (%s,%s), its last row has %s" p f n
+                               (if bc = "5" then "NULL" else if got = None && int_of_string_opt bc = None then bc else String.make 1 "abcde?".[min 5 (int_of_string bc)])
+                               (if bv = "n" then "NULL" else bv) (show_bare want)
+                       end) bares;
                  if List.length impl >= 2 || List.exists (fun (_, n) -> int_of_nat n >= 2) impl then nt := true
                end) parts;
            if List.exists (fun (q, _) -> not (List.mem q parts)) outs then "chk run a match of a partition without rows"
            else if !verdict <> "" then !verdict else if !nt then "ok nt" else "ok"
        | _ -> "bad line")
   | _ -> "bad line"
+
+let handle (toks : string list) : string =
+  match toks with
+  | "K" :: rest -> handle_k rest
+  | "S" :: bare :: rest -> handle_plain (bare = "1") rest
+  | _ -> handle_plain false toks
 
 let () = Registry.register "C15" handle
